@@ -54,6 +54,21 @@ class Pkt:
         self.shape = []
 
 
+def gen_tcp_opts(rng, n):
+    """a TCP option area of exactly n bytes: known kinds with right / off-by-some length bytes, the last
+    option possibly running into the end of the area"""
+    out = b""
+    while len(out) < n:
+        k = rng.choice([0, 1, 1, 2, 3, 4, 5, 5, 8, rng.below(256)])
+        if k in (0, 1):
+            out += bytes([k])
+            continue
+        right = {2: 4, 3: 3, 4: 2, 5: rng.choice([10, 18, 26, 34]), 8: 10}.get(k, rng.range(2, 12))
+        ln = right if rng.chance(3, 4) else rng.choice([right + 4, right - 4, right + 1, right - 1, 0, 1, 14, 22, 30, rng.below(256)]) & 255
+        out += bytes([k, ln]) + rng.bytes(max(0, ln - 2))
+    return out[:n]
+
+
 def gen_transport(rng, v6):
     """returns (ip_number, bytes, tag)"""
     k = rng.below(12)
@@ -64,6 +79,8 @@ def gen_transport(rng, v6):
     if k < 6:   # TCP
         do = rng.choice([5, 5, 5, 6, 8, 15, rng.below(16)])
         opts = rng.bytes(max(0, do * 4 - 20)) if rng.chance(4, 5) else rng.bytes(rng.below(8))
+        if do > 5 and rng.chance(1, 2):
+            opts = gen_tcp_opts(rng, do * 4 - 20)
         hdr = bytearray(rng.bytes(20))
         hdr[12] = (do << 4) | (hdr[12] & 0x0F)
         return 6, bytes(hdr) + opts + pl, "tcp"
